@@ -317,10 +317,19 @@ theorem buildIn_wok (id : Nat) (orc : Oracle) (N : Nat) (s : Int) (h0 : -1 ≤ s
     WOk N s (buildIn id orc) := by
   unfold buildIn
   refine WOk.getSp_bind ?_
-  refine WOk.rdAddr_bind (fun top hb => ?_)
-  dsimp only
-  split
-  all_goals wok
+  by_cases h12 : id = 12
+  · have hc : (id == 12) = true := by simp [h12]
+    simp only [hc, if_true]
+    refine WOk.keeps_bind (by keeps) (WOk.of_nowc (by nowc)) (fun top => ?_)
+    try dsimp only
+    split
+    all_goals first | exact absurd h12 (by decide) | wok
+  · have hc : (id == 12) = false := by simpa using h12
+    simp only [hc, Bool.false_eq_true, if_false]
+    refine WOk.rdAddr_bind (fun top hb => ?_)
+    try dsimp only
+    split
+    all_goals wok
 
 theorem wok_BUILD_IN (md : Module) (ins : Instr) (orc : Oracle) (N : Nat) (s : Int) (h0 : -1 ≤ s) (h1 : s < N)
     (h : ins.op = .BUILD_IN) : WOk N s (exec md ins orc) := by
